@@ -29,7 +29,7 @@ def maps_for(ctx, n_random):
     return ms
 
 
-def run_devices(ctx, jobs_spec, n_random_maps, observe="all", only_if=None):
+def run_devices(ctx, jobs_spec, n_random_maps, observe="all", only_if=None, extra_args=()):
     """jobs_spec: list of (name, cfg text, workers, simulate(num, depth) or None); only_if(mismatch) -> bool restricts what is reported"""
     with cf.ThreadPoolExecutor(max_workers=5) as ex:
         fb = ex.submit(build_harness, ["devices"])
@@ -49,7 +49,7 @@ def run_devices(ctx, jobs_spec, n_random_maps, observe="all", only_if=None):
     maps = maps_for(ctx, n_random_maps)
     mp = os.path.join(ctx.out, "maps.json")
     json.dump(maps, open(mp, "w"))
-    mism, summary, _ = run_bin(bindir, "devices", ["replay", allb, mp, "--observe", observe], timeout=3000)
+    mism, summary, _ = run_bin(bindir, "devices", ["replay", allb, mp, "--observe", observe] + list(extra_args), timeout=3000)
     ctx.evaluations += summary.get("replays", 0)
     ctx.traces += summary.get("behaviours", 0)
     ctx.extra["replay_summary"] = summary
